@@ -24,6 +24,7 @@ func TestC02(t *testing.T) {
 		wo := sim.DefaultOpts()
 		wo.FeeCoin = true
 		h := newHistory(t, wo, swapProfile(), sim.BlockOpts{MaxTxs: 8, Absences: true, Evidence: true, EvidenceAny: true, TimeJumps: false})
+		defer queryLoad(t, h, 0)()
 		boundary := 0
 		check := func(where string) {
 			e := &h.G.V.Exp
